@@ -280,10 +280,42 @@ class World:
             if st["pending"]:
                 self.stats["rejected_loudly"] += 1
                 return "raised:" + type(e).__name__
+            if w != "sol_sample":
+                self.unexpected_raise(act, st, "query", e, lambda fresh: self._do_query(fresh, step))
             return "raised:" + type(e).__name__
         st["transcribed"] = True
         st["ever"] = True
         return "ok"
+
+    def _do_query(self, act, step):
+        o = act.ocp
+        w = step["what"]
+        if w == "sample":
+            o.sample(act.target(step["x"]) if "x" in step else o.t, grid=step.get("grid", "control"))
+        elif w == "value":
+            o.value(o.T)
+        elif w == "jacobian":
+            o.jacobian()
+        elif w == "gist":
+            o.gist
+        elif w == "initial_value":
+            tgt = step.get("x")
+            e = o.sample(act.target(tgt), grid="control")[1] if tgt else o.value(o.T)
+            o.initial_value(e)
+
+    def unexpected_raise(self, act, st, what, e, redo):
+        """a query / solve raised although no rejected edit is pending: is the specification itself ill-posed
+        (then a freshly written copy raises too) or did the history break the object?"""
+        if st.get("tainted"):
+            return
+        try:
+            fresh = build(program(act.spec), "fresh")
+            redo(fresh)
+        except Exception:
+            self.probe("raise_shared_by_fresh_specification")
+            return
+        raise Violation("evolved-raises", "%s raises %s on the evolved OCP (%s) but works on the same specification written afresh" % (
+            what, type(e).__name__, str(e)[:200]))
 
     # -- solves (the solver seam decides the outcome)
     def _solve(self, act, st, step):
@@ -321,6 +353,8 @@ class World:
             st["ever"] = True  # a transcription was at least attempted
             if st["pending"]:
                 self.stats["rejected_loudly"] += 1
+            elif out.startswith("raised") and fault is None:
+                self.unexpected_raise(act, st, "solve", Exception(out), lambda fresh: self.handoff(fresh))
         return out
 
     # -- persistence
